@@ -102,6 +102,12 @@ def _const_key(c):
     return (type(c.value).__name__, repr(c.value))
 
 
+def _strip_keys(e):
+    if isinstance(e, ast.Call) and isinstance(e.func, ast.Attribute) and e.func.attr == "keys" and not e.args and not e.keywords:
+        return e.func.value
+    return e
+
+
 class Expr(ast.NodeTransformer):
     """Expression-level canonicalisation (bottom-up)."""
 
@@ -118,8 +124,22 @@ class Expr(ast.NodeTransformer):
                 return neg(o)
         return node
 
+    def visit_For(self, node):
+        self.generic_visit(node)
+        if on("E7"):
+            node.iter = _strip_keys(node.iter)
+        return node
+
+    def visit_comprehension(self, node):
+        self.generic_visit(node)
+        if on("E7"):
+            node.iter = _strip_keys(node.iter)
+        return node
+
     def visit_Compare(self, node):
         self.generic_visit(node)
+        if on("E7") and len(node.ops) == 1 and isinstance(node.ops[0], (ast.In, ast.NotIn)):
+            node.comparators = [_strip_keys(node.comparators[0])]
         if len(node.ops) == 1:
             op, r = node.ops[0], node.comparators[0]
             if on("E1") and isinstance(op, (ast.Eq, ast.NotEq)) and isinstance(node.left, ast.Constant) and not isinstance(r, ast.Constant):
@@ -131,6 +151,12 @@ class Expr(ast.NodeTransformer):
 
     def visit_Call(self, node):
         self.generic_visit(node)
+        # E7: `d.keys()` where only the iteration / membership of the keys matters is `d`
+        if on("E7"):
+            fname = node.func.attr if isinstance(node.func, ast.Attribute) else (node.func.id if isinstance(node.func, ast.Name) else None)
+            if fname in ("update", "difference_update", "intersection_update", "symmetric_difference_update", "union", "difference", "intersection", "issubset", "issuperset", "isdisjoint",
+                         "set", "frozenset", "list", "tuple", "sorted", "len", "iter", "any", "all", "extend"):
+                node.args = [_strip_keys(a) for a in node.args]
         if on("E4") and len(node.keywords) > 1:
             node.keywords = sorted(node.keywords, key=lambda k: (k.arg is None, k.arg or ""))
         if on("E6") and isinstance(node.func, ast.Name) and node.func.id == "list" and len(node.args) == 1 and not node.keywords and isinstance(node.args[0], ast.Call):
